@@ -60,14 +60,16 @@ def gen_plan(rng, opts=None):
     knobs = dict(max_retries=rng.choice([3, 5, 20]), batch=rng.choice([1, 3, 8]))
     part = None
     if o["partition"]:
-        part = dict(host=rng.randrange(n), at_op=rng.randrange(len(ops)), dir=rng.choice(["both", "to_ctrl", "to_exec"]))
+        part = dict(host=rng.randrange(n), at_op=rng.randrange(len(ops)), dir=rng.choice(["both", "to_ctrl", "to_exec"]),
+                    scope=rng.choice(["both", "both", "data", "main"]))      # the whole host, or only its data server's / its executor's port
         knobs["max_retries"] = rng.choice([3, 5])
         if rng.random() < 0.4:
             # a partition that heals before the full retry budget (20 x 800 ms) is used up: nobody may give up, and the copies that
             # pile up on the far side (or whose acks were lost for many seconds) are still delivered exactly once
             part.update(heal_s=rng.choice([5, 9, 12, 14]), acks_too=True)
             knobs["max_retries"] = 20
-    return dict(mode="traffic", n=n, wph=wph, ops=ops, net=net, knobs=knobs, partition=part, stagger=stagger, stall=stall)
+    return dict(mode="traffic", n=n, wph=wph, ops=ops, net=net, knobs=knobs, partition=part, stagger=stagger, stall=stall,
+                tx_answered=rng.random() < 0.6)       # transfers are confirmed by an event the controller waits for
 
 
 class Mon:
@@ -234,7 +236,8 @@ def _run_traffic(plan, ch, want_log):
         if not pstate["on"]:
             return False
         base = 12001 + 10 * part["host"]
-        to_exec = any(addr.endswith(f":{p}") for p in (base, base + 1))
+        ports = {"both": (base, base + 1), "data": (base + 1,), "main": (base,)}[part.get("scope", "both")]
+        to_exec = any(addr.endswith(f":{p}") for p in ports)
         to_ctrl = addr.endswith(":12000")
         if to_exec:
             return part["dir"] in ("both", "to_exec")
@@ -246,7 +249,7 @@ def _run_traffic(plan, ch, want_log):
             except Exception:
                 return False
             if isinstance(m0, Syn):
-                return m0.addr.endswith(f":{base}") or m0.addr.endswith(f":{base + 1}")
+                return any(m0.addr.endswith(f":{p}") for p in ports)
             return True if part.get("acks_too") else False
         return False
     ncfg = dict(lat=(net["lat_lo"], net["lat_hi"]), faultable=wire.faultable, drop_pct=net["drop"], dup_pct=net["dup"],
@@ -266,6 +269,9 @@ def _run_traffic(plan, ch, want_log):
         while True:
             for m in l.recv_messages(500):
                 applog["data." + host].append(m)
+                if plan.get("tx_answered") and isinstance(m, DatasetTransmitCommand):
+                    # what a data server does when a payload has been stored: tell its executor, which tells the controller
+                    callback(maddress, DatasetPublished(ds=m.ds, origin=host, transmit_idx=m.idx))
 
     def stub_worker(runnerContext):
         import zmq
@@ -347,6 +353,8 @@ def _run_traffic(plan, ch, want_log):
                     expected += 1
                 elif op[0] == "tx":
                     b.transmit(DatasetId(op[2], "0"), f"h{op[1]}", f"h{(op[1] + 1) % n}")
+                    if plan.get("tx_answered"):
+                        expected += 1
                 elif op[0] == "purge":
                     b.purge(f"h{op[1]}", DatasetId(op[2], "0"))
                 elif op[0] == "bad":
